@@ -34,6 +34,23 @@ MAXPAR = int(os.environ.get("VERIF_MAXPAR", "16"))
 NOUSER = -999999
 
 
+def control_outcome(chk, part, ctl, base_ok, accepted):
+    """Negative controls, robust for every seed: a control is evaluated only when TLC accepted its base record; a corruption
+    kind fails (binding failure, exit 2) only when it had evaluated candidates and NONE of them was rejected."""
+    kinds = {}
+    for c in ctl:
+        if not base_ok(c):
+            continue
+        k = kinds.setdefault(c["ctl"], [0, 0])
+        k[0] += 1
+        k[1] += 0 if accepted(c) else 1
+    chk.part(part, corrupted=sum(k[0] for k in kinds.values()), rejected=sum(k[1] for k in kinds.values()),
+             by_kind={n: {"evaluated": k[0], "rejected": k[1]} for n, k in sorted(kinds.items())})
+    dead = sorted(n for n, k in kinds.items() if k[0] > 0 and k[1] == 0)
+    if dead:
+        raise tlc.TLCError("binding failure (%s): no corrupted record of kind %s was rejected" % (part, dead))
+
+
 # =====================================================================================================
 # Method of increments
 # =====================================================================================================
@@ -173,12 +190,12 @@ def replay_mi(case):
 # =====================================================================================================
 # ONIOM
 # =====================================================================================================
-ONIOM_INVS = ["TelescopeLow", "WholeModel", "CoefSum", "AtomBalance", "SystemFirst"]
+ONIOM_INVS = ["TelescopeLow", "WholeModel", "CoefSum", "AtomBalance", "SystemFirst", "OptionsMatter"]
 
 
-def oniom_cfg(na, meth, maxmodels, links, coords="NoCoords", init="InitFormal", nxt="NextFormal", invs=ONIOM_INVS):
-    return ("CONSTANTS NA = %d\nMethods <- %s\nMaxModels = %d\nWithLinks = %s\nCoords <- %s\nFactors <- FactorsAll\nINIT %s\nNEXT %s\n"
-            % (na, meth, maxmodels, "TRUE" if links else "FALSE", coords, init, nxt) + "".join("INVARIANT %s\n" % i for i in invs))
+def oniom_cfg(na, meth, maxmodels, links, coords="NoCoords", init="InitFormal", nxt="NextFormal", invs=ONIOM_INVS, opts="Opt1"):
+    return ("CONSTANTS NA = %d\nMethods <- %s\nOptions <- %s\nMaxModels = %d\nWithLinks = %s\nCoords <- %s\nFactors <- FactorsAll\nINIT %s\nNEXT %s\n"
+            % (na, meth, opts, maxmodels, "TRUE" if links else "FALSE", coords, init, nxt) + "".join("INVARIANT %s\n" % i for i in invs))
 
 
 def limbs(e):
@@ -329,8 +346,16 @@ BEH2 = [("Be", (0., 0., 0.)), ("H", (0., 0., 1.375)), ("H", (0., 0., -1.375))]
 LIH_H2 = [("Li", (0., 0., 0.)), ("H", (0., 0., 1.625)), ("H", (0., 2.5, 0.)), ("H", (0., 2.5, 0.75))]
 
 
-def F(sel=None, low="HF", high=None, links=(), charge=0, spin=0):
-    return {"sel": sel, "low": low, "high": high, "links": [list(l) for l in links], "charge": charge, "spin": spin}
+def F(sel=None, low="HF", high=None, links=(), charge=0, spin=0, olow=None, ohigh=None):
+    """Fragment description; olow / ohigh: solver options (basis, frozen_orbitals); None = the Fragment defaults."""
+    return {"sel": sel, "low": low, "high": high, "links": [list(l) for l in links], "charge": charge, "spin": spin,
+            "olow": olow, "ohigh": ohigh}
+
+
+def level_opts(opts):
+    """(basis, frozen_orbitals) a Fragment has to use for one level: what the documentation of the options says."""
+    opts = opts if opts is not None else {"basis": "sto-3g"}
+    return opts["basis"], opts.get("frozen_orbitals", None)
 
 
 def oniom_runs(chk):
@@ -344,6 +369,34 @@ def oniom_runs(chk):
         dict(name="BeH2 link low=high", geometry=BEH2, frags=[F(low="CCSD"), F([1, 0], "CCSD", "CCSD", links=[(0, 2, 5, "H")])], expect="low"),
         dict(name="H4 three layers", geometry=H4, frags=[F(), F([0, 1], "HF", "CCSD"), F([3, 2], "HF", "FCI")], expect="none"),
     ]
+    FC = {"basis": "sto-3g", "frozen_orbitals": [0]}          # frozen core of Li / Be
+    NF = {"basis": "sto-3g"}
+    B321 = {"basis": "3-21g"}
+    LIH = [("Li", (0., 0., 0.)), ("H", (0., 0., 1.625))]
+    runs += [
+        # the options of a level belong to the token: E(method, options, geometry)
+        dict(name="LiH model=whole, HF : CCSD(frozen core)", geometry=LIH, options=True, expect="high",
+             frags=[F(), F(2, "HF", "CCSD", olow=NF, ohigh=FC)]),
+        dict(name="LiH model=whole, CCSD(frozen core) : CCSD (options differ, same method: no telescoping)", geometry=LIH, options=True, expect="none",
+             frags=[F(), F([1, 0], "CCSD", "CCSD", olow=FC, ohigh=NF)]),
+        dict(name="LiH-H2 high=low CCSD(frozen core) both", geometry=LIH_H2, options=True, expect="low",
+             frags=[F(), F([0, 1], "CCSD", "CCSD", olow=FC, ohigh=copy.deepcopy(FC))]),
+        dict(name="H4 model=whole, HF/sto-3g : FCI/3-21g", geometry=H4, options=True, expect="high",
+             frags=[F(), F(4, "HF", "FCI", olow=NF, ohigh=B321)]),
+        dict(name="H4 model HF/3-21g : CCSD/sto-3g, system HF/3-21g", geometry=H4B, options=True, expect="none",
+             frags=[F(low="HF", olow=B321), F([0, 1], "HF", "CCSD", olow=B321, ohigh=NF)]),
+    ]
+    if not chk.quick:
+        runs += [
+            dict(name="BeH2 link, FCI(frozen core) : FCI", geometry=BEH2, options=True, expect="none",
+                 frags=[F(), F([0, 1], "FCI", "FCI", links=[(0, 2, 6, "H")], olow=FC, ohigh=NF)]),
+            dict(name="LiH-H2 model=whole permuted, HF : FCI(frozen [0, 5])", geometry=LIH_H2, options=True, expect="high",
+                 frags=[F(), F([2, 3, 1, 0], "HF", "FCI", olow=NF, ohigh={"basis": "sto-3g", "frozen_orbitals": [0, 5]})]),
+            dict(name="H4 high=low FCI/3-21g both, system HF/3-21g", geometry=H4, options=True, expect="low",
+                 frags=[F(low="HF", olow=B321), F([2, 3], "FCI", "FCI", olow=B321, ohigh=copy.deepcopy(B321))]),
+            dict(name="LiH system CCSD(frozen core), model=whole CCSD(frozen core) : FCI(frozen core)", geometry=LIH, options=True, expect="high",
+                 frags=[F(low="CCSD", olow=FC), F([0, 1], "CCSD", "FCI", olow=copy.deepcopy(FC), ohigh=copy.deepcopy(FC))]),
+        ]
     if not chk.quick:
         runs += [
             dict(name="LiH-H2 model=whole list in order", geometry=LIH_H2, frags=[F(low="CCSD"), F([0, 1, 2, 3], "CCSD", "FCI")], expect="high"),
@@ -358,20 +411,27 @@ def oniom_runs(chk):
     return runs
 
 
-def method_token(name, charge, spin):
-    return "%s/sto-3g/q%d/s%d" % (name, charge, spin)
+def level_token(name, opts, charge, spin):
+    """Level of a fragment as a token [m, o]: method and OPTIONS - the uninterpreted energy is E(method, options, geometry)."""
+    if not name:
+        return {"m": "none", "o": ""}
+    basis, frozen = level_opts(opts)
+    return {"m": name, "o": "basis=%s;frozen=%s;q=%d;s=%d" % (basis, json.dumps(frozen), charge, spin)}
 
 
 _REF_CACHE = {}
 
 
-def reference_energy(name, geom, charge, spin):
-    """E(method, geometry) by a direct, ONIOM-independent call of the solver classes (uninterpreted function sampled)."""
+def reference_energy(name, geom, charge, spin, opts=None):
+    """E(method, options, geometry) by a direct, ONIOM-independent call of the solver classes with the SAME options
+    (the uninterpreted function sampled where the trace needs it)."""
     from tangelo import SecondQuantizedMolecule
     from tangelo.algorithms import CCSDSolver, FCISolver
-    key = (name, tuple((a[0], tuple(a[1])) for a in geom), charge, spin, check.REPO)
+    basis, frozen = level_opts(opts)
+    key = (name, tuple((a[0], tuple(a[1])) for a in geom), charge, spin, basis, json.dumps(frozen), check.REPO)
     if key not in _REF_CACHE:
-        mol = SecondQuantizedMolecule([(a[0], tuple(a[1])) for a in geom], q=charge, spin=spin, basis="sto-3g", frozen_orbitals=None)   # the options a Fragment uses by default: sto-3g, nothing frozen
+        mol = SecondQuantizedMolecule([(a[0], tuple(a[1])) for a in geom], q=charge, spin=spin, basis=basis,
+                                      frozen_orbitals=copy.deepcopy(frozen))
         if name == "HF":
             _REF_CACHE[key] = mol.mf_energy
         elif name == "CCSD":
@@ -392,6 +452,7 @@ def oniom_run(run):
     for f in run["frags"]:
         links = [Link(s, l, f8 / 8.0, sp) for s, l, f8, sp in f["links"]] or None
         frs.append(Fragment(solver_low=f["low"], solver_high=f["high"], selected_atoms=copy.deepcopy(f["sel"]),
+                            options_low=copy.deepcopy(f.get("olow")), options_high=copy.deepcopy(f.get("ohigh")),
                             charge=f["charge"], spin=f["spin"], broken_links=links))
     geo_arg = "\n".join("%s %r %r %r" % (a[0], a[1][0], a[1][1], a[1][2]) for a in geometry) if run.get("as_string") else list(geometry)
     on = ONIOMProblemDecomposition({"geometry": geo_arg, "fragments": frs})
@@ -405,17 +466,22 @@ def oniom_run(run):
                 {"kind": "count", "n": sel, "l": []} if isinstance(sel, int) else {"kind": "list", "n": 0, "l": list(sel)})
         fgeom = [(a[0], tuple(a[1])) for a in fr.geometry]
         rec["frags"].append({"sel": selj, "links": [{"s": s, "l": l, "f8": f8, "sp": sp, "gsize": 1} for s, l, f8, sp in f["links"]],
-                             "low": method_token(f["low"], f["charge"], f["spin"]) if f["low"] else "none",
-                             "high": method_token(f["high"], f["charge"], f["spin"]) if f["high"] else "none",
+                             "low": level_token(f["low"], f.get("olow"), f["charge"], f["spin"]),
+                             "high": level_token(f["high"], f.get("ohigh"), f["charge"], f["spin"]),
                              "geom": geom_json(fgeom)})
-        for name in (f["low"], f["high"]):
+        for name, opts in ((f["low"], f.get("olow")), (f["high"], f.get("ohigh"))):
             if name:
-                rec["refs"].append({"m": method_token(name, f["charge"], f["spin"]), "geom": geom_json(fgeom),
-                                    "e": limbs(reference_energy(name, fgeom, f["charge"], f["spin"]))})
-    # E(method, whole system in the input order) for every neutral singlet method that appears
-    for name in sorted({n for f in run["frags"] for n in (f["low"], f["high"]) if n and f["charge"] == 0 and f["spin"] == 0}):
-        rec["refs"].append({"m": method_token(name, 0, 0), "geom": geom_json(geometry),
-                            "e": limbs(reference_energy(name, geometry, 0, 0))})
+                rec["refs"].append(dict(level_token(name, opts, f["charge"], f["spin"]), geom=geom_json(fgeom),
+                                        e=limbs(reference_energy(name, fgeom, f["charge"], f["spin"], opts))))
+    # E(level, whole system in the input order) for every neutral singlet level that appears
+    seen = set()
+    for f in run["frags"]:
+        for name, opts in ((f["low"], f.get("olow")), (f["high"], f.get("ohigh"))):
+            if name and f["charge"] == 0 and f["spin"] == 0:
+                tok = level_token(name, opts, 0, 0)
+                if (name, tok["o"]) not in seen:
+                    seen.add((name, tok["o"]))
+                    rec["refs"].append(dict(tok, geom=geom_json(geometry), e=limbs(reference_energy(name, geometry, 0, 0, opts))))
     return rec, total
 
 
@@ -430,23 +496,27 @@ def oniom_negative_controls(jobs):
             c = copy.deepcopy(j); li = [f for f in c["frags"] if f["links"]][0]["links"][0]; li["s"], li["l"] = li["l"], li["s"]
             c["ctl"] = "link-direction"; ctl.append(c)
         if j["expect"] == "low":
-            c = copy.deepcopy(j); c["frags"][-1]["high"] = "FCI/other"; c["ctl"] = "premise-broken"; ctl.append(c)
+            c = copy.deepcopy(j); c["frags"][-1]["high"]["o"] += ";other"; c["ctl"] = "premise-broken"; ctl.append(c)
     return ctl
 
 
 def run_oniom(chk, rng):
     quick = chk.quick
     # ---- S (formal telescoping) and G exports -------------------------------------------------------------
-    runs = [dict(module="C15Oniom", cfg=oniom_cfg(3, "Meth3", 1, True), name="c15/on_formal_a", workers=2),
+    runs = [dict(module="C15Oniom", cfg=oniom_cfg(3, "Meth2", 1, True, opts="Opt2"), name="c15/on_formal_a", workers=3),
             dict(module="C15Oniom", cfg=oniom_cfg(2, "Meth2", 2, True), name="c15/on_formal_b", workers=2),
             dict(module="C15Oniom", cfg=oniom_cfg(4, "Meth2", 1, False, init="InitSel", nxt="NextSel", invs=[]), name="c15/on_sel4"),
             dict(module="C15Oniom", cfg=oniom_cfg(3, "Meth2", 1, False, init="InitSel", nxt="NextSel", invs=[]), name="c15/on_sel3"),
             dict(module="C15Oniom", cfg=oniom_cfg(2, "Meth2", 1, False, coords=("CoordsSmall" if quick else "CoordsWide"),
                                                   init="InitLink", nxt="NextLink", invs=["CapOnBond"]), name="c15/on_link", workers=2)]
-    names = ["formal_na3_m1_links", "formal_na2_m2_links", "sel4", "sel3", "link"]
+    names = ["formal_na3_m1_links_2options", "formal_na2_m2_links", "sel4", "sel3", "link"]
     if not quick:
         runs.append(dict(module="C15Oniom", cfg=oniom_cfg(3, "Meth2", 2, False), name="c15/on_formal_c", workers=4))
         names.append("formal_na3_m2")
+        runs.append(dict(module="C15Oniom", cfg=oniom_cfg(3, "Meth3", 1, True), name="c15/on_formal_d", workers=2))
+        names.append("formal_na3_m1_links_3methods")
+        runs.append(dict(module="C15Oniom", cfg=oniom_cfg(2, "Meth2", 2, False, opts="Opt2"), name="c15/on_formal_e", workers=4))
+        names.append("formal_na2_m2_2options")
     res = dict(zip(names, tlc.run_many(runs, max_parallel=min(MAXPAR, 6))))
     for nm, r in res.items():
         if not r.ok:
@@ -478,11 +548,7 @@ def run_oniom(chk, rng):
                 chk.violation("oniom:relink:group:%s" % verdicts[j["id"]], "Link(species=%s).relink: %s (s=%s/8, l=%s/8, f=%d/8)"
                               % (j["case"]["species"], verdicts[j["id"]], j["case"]["rec"]["s"], j["case"]["rec"]["l"], j["case"]["rec"]["f"]),
                               dict(j["case"], kind="relink_group"))
-        ctl = [c for c in ctl if verdicts[c["base"]] == "ok"]
-        bad = [c["ctl"] for c in ctl if verdicts[c["id"]] == "ok"]
-        chk.part("negative_controls_oniom_groups", corrupted=len(ctl), rejected=len(ctl) - len(bad))
-        if bad:
-            raise tlc.TLCError("binding failure: corrupted capping-group records accepted: %s" % bad)
+        control_outcome(chk, "negative_controls_oniom_groups", ctl, lambda c: verdicts[c["base"]] == "ok", lambda c: verdicts[c["id"]] == "ok")
     # ---- V: real runs ------------------------------------------------------------------------------------------
     jobs = []
     for run in oniom_runs(chk):
@@ -509,15 +575,15 @@ def run_oniom(chk, rng):
             raise tlc.TLCError("malformed ONIOM record (%s): %s" % (v, j["run"]["name"]))
         if v != "ok":
             chk.violation("oniom:simulate:%s:%s" % (j["expect"], v), "%s: %s" % (j["run"]["name"], v), {"kind": "oniom", "run": j["run"]})
-    ctl = [c for c in ctl if verdicts[c["base"]] == "ok"]         # a corruption of a wrong record proves nothing
-    bad = [c["ctl"] for c in ctl if verdicts[c["id"]] == "ok"]
-    chk.part("negative_controls_oniom", corrupted=len(ctl), rejected=len(ctl) - len(bad), kinds=sorted(set(c["ctl"] for c in ctl)))
-    if bad:
-        raise tlc.TLCError("binding failure: corrupted ONIOM records accepted: %s" % bad)
+    control_outcome(chk, "negative_controls_oniom", ctl, lambda c: verdicts[c["base"]] == "ok", lambda c: verdicts[c["id"]] == "ok")
     if jobs:
         j = jobs[0]
         chk.sample({"kind": "oniom", "name": j["run"]["name"], "total": j["total"], "expect": j["expect"],
                     "frags": [{k: f[k] for k in ("sel", "low", "high")} for f in j["frags"]]})
+        jo = [x for x in jobs if x["run"].get("options")]
+        if jo:
+            chk.sample({"kind": "oniom", "name": jo[0]["run"]["name"], "total": jo[0]["total"], "expect": jo[0]["expect"],
+                        "frags": [{k: f[k] for k in ("sel", "low", "high")} for f in jo[0]["frags"]]})
     chk.part("V_oniom_runs", runs=len(jobs), observational_part="energies of equal tokens listed in different atom orders agree to 2e-6 Ha")
 
 
@@ -767,11 +833,7 @@ def run_dmet(chk, rng):
         chk.add_traces(1, "V_dmet_runs_observational")
         if v != "ok":
             chk.violation("dmet:simulate:%s" % v, "%s: %s" % (j["run"]["name"], v), {"kind": "dmet", "run": j["run"]})
-    ctl = [c for c in ctl if verdicts[c["base"]] == "ok"]
-    bad = [c["ctl"] for c in ctl if verdicts[c["id"]] == "ok"]
-    chk.part("negative_controls_dmet", corrupted=len(ctl), rejected=len(ctl) - len(bad), kinds=sorted(set(c["ctl"] for c in ctl)))
-    if bad:
-        raise tlc.TLCError("binding failure: corrupted DMET traces accepted: %s" % bad)
+    control_outcome(chk, "negative_controls_dmet", ctl, lambda c: verdicts[c["base"]] == "ok", lambda c: verdicts[c["id"]] == "ok")
     if jobs:
         chk.sample({"kind": "dmet", "name": jobs[0]["run"]["name"], "events": jobs[0]["events"], "recheck": jobs[0]["recheck"]})
     chk.part("V_dmet_runs_observational", runs=len(jobs),
